@@ -109,7 +109,13 @@ pub fn init_snap(i: &Init) -> Option<Snap> {
 }
 
 /// (initial state, shallow) — shallow ones (big packets) are only expanded one level
+/// (initial state, shallow, maximal depth explored from it)
 pub fn initial_states(t: Tier, with_big: bool) -> Vec<(Init, bool)> {
+    initial_states_d(t, with_big).into_iter().map(|(i, d)| (i, d == 1)).collect()
+}
+
+pub fn initial_states_d(t: Tier, with_big: bool) -> Vec<(Init, usize)> {
+    let full = usize::MAX;
     let (a, ba, cba) = (nm("a"), nm("b.a"), nm("c.b.a"));
     let opt = opt_variants();
     let mut ip6 = [0u8; 16];
@@ -138,41 +144,47 @@ pub fn initial_states(t: Tier, with_big: bool) -> Vec<(Init, bool)> {
         msgs.push(r(vec![a_rec(&nm("B.A"), 60, [1, 2, 3, 4]), a_rec(&ba, 61, [1, 2, 3, 5])], vec![soa_rec(&ba, 3, &a, &a)], vec![mx_rec(&a, 1, 1, &ba)]));
         msgs.push(r(vec![], vec![], vec![]));
     }
-    let mut v: Vec<(Init, bool)> = vec![];
+    let mut v: Vec<(Init, usize)> = vec![];
     for m in &msgs {
         for s in [Strategy::Max, Strategy::Plain, Strategy::Chain, Strategy::RdataOnly] {
             let x = encode(m, s);
             if !v.iter().any(|(i, _)| matches!(i, Init::Packet(p) if *p == x)) {
-                v.push((Init::Packet(x), false));
+                v.push((Init::Packet(x), full));
             }
         }
     }
-    v.push((Init::Empty, false));
-    v.push((Init::Query, false));
+    // names at offsets where pointer bytes take special values (c1 00, c2 00) and packets longer than 256 bytes
+    let al = aligned_pointer_packets();
+    v.push((Init::Packet(al[5].clone()), 2)); // name at 256, with OPT
+    if t == Tier::Thorough {
+        v.push((Init::Packet(al[12].clone()), 2)); // name at 512
+    }
+    v.push((Init::Empty, full));
+    v.push((Init::Query, full));
     if with_big {
         // larger than the insertion limit, as arrives over TCP: plain and "small but expands"
         let mut big = r(vec![a_rec(&ba, 60, [1, 2, 3, 4])], vec![], vec![opt[1].clone()]);
         big.an.push(Rec { owner: a.clone(), rtype: 99, class: 1, ttl: 0, rdata: Rdata::Opaque(vec![0x41; 9000]) });
-        v.push((Init::Packet(encode(&big, Strategy::Plain)), true));
-        v.push((Init::Packet(encode(&big, Strategy::Max)), true));
+        v.push((Init::Packet(encode(&big, Strategy::Plain)), 1));
+        v.push((Init::Packet(encode(&big, Strategy::Max)), 1));
         let long = name_of_wire_len(255);
         let mut exp = base_msg(&long, T_A, true);
         for i in 0..40u32 {
             exp.an.push(name_rec(&long, T_CNAME, i, &long));
         }
-        v.push((Init::Packet(encode(&exp, Strategy::Max)), true)); // ~1.3 KB on the wire, > 20 KB expanded
+        v.push((Init::Packet(encode(&exp, Strategy::Max)), 1)); // ~1.3 KB on the wire, > 20 KB expanded
         // just below 65535 bytes: growing a name must fail with "too large"
         let mut near = r(vec![], vec![], vec![]);
         near.an.push(a_rec(&a, 1, [1, 2, 3, 4]));
         let used = plain_len(&near);
         near.an.push(Rec { owner: a.clone(), rtype: 99, class: 1, ttl: 0, rdata: Rdata::Opaque(vec![0x42; 65535 - used - 13 - 20]) });
-        v.push((Init::Packet(encode(&near, Strategy::Plain)), true));
+        v.push((Init::Packet(encode(&near, Strategy::Plain)), 1));
         // 8192 exactly and 8180
         for total in [8192usize, 8180] {
             let mut m = r(vec![a_rec(&ba, 60, [1, 2, 3, 4])], vec![], vec![]);
             let used = plain_len(&m);
             m.an.push(Rec { owner: a.clone(), rtype: 99, class: 1, ttl: 0, rdata: Rdata::Opaque(vec![0x43; total - used - 13]) });
-            v.push((Init::Packet(encode(&m, Strategy::Plain)), true));
+            v.push((Init::Packet(encode(&m, Strategy::Plain)), 1));
         }
     }
     v
@@ -275,7 +287,7 @@ struct Node {
     parent: Option<usize>,
     op: Option<Op>,
     init: usize,
-    shallow: bool,
+    maxdepth: usize,
 }
 
 fn path_of(nodes: &[Node], mut i: usize) -> (usize, Vec<Op>) {
@@ -305,10 +317,10 @@ fn run(ctx: &mut Ctx, rep: &mut Report, mode: Mode) {
     let tier = ctx.tier;
     let depth = tier.pick(3, 4);
     let cap = tier.pick(400_000usize, 3_000_000);
-    let inits = initial_states(tier, true);
+    let inits = initial_states_d(tier, true);
     let mut nodes: Vec<Node> = vec![];
     let mut seen: HashSet<u128> = HashSet::new();
-    for (i, (init, shallow)) in inits.iter().enumerate() {
+    for (i, (init, maxdepth)) in inits.iter().enumerate() {
         match init_snap(init) {
             Some(s) => {
                 if let Err((sig, w)) = view_check(&s) {
@@ -318,7 +330,7 @@ fn run(ctx: &mut Ctx, rep: &mut Report, mode: Mode) {
                     continue;
                 }
                 if seen.insert(fp(&s)) {
-                    nodes.push(Node { snap: s, parent: None, op: None, init: i, shallow: *shallow });
+                    nodes.push(Node { snap: s, parent: None, op: None, init: i, maxdepth: *maxdepth });
                 }
             }
             None => rep.notes.push(format!("initial state {} could not be built", i)),
@@ -335,7 +347,7 @@ fn run(ctx: &mut Ctx, rep: &mut Report, mode: Mode) {
             if level == 0 {
                 // nothing to filter
             }
-            if nodes[ni].shallow && level > 0 {
+            if level >= nodes[ni].maxdepth {
                 continue;
             }
             if ctx.timed_out() || nodes.len() >= cap {
@@ -345,7 +357,7 @@ fn run(ctx: &mut Ctx, rep: &mut Report, mode: Mode) {
             let s = nodes[ni].snap.clone();
             let bytes = s.packet.clone().unwrap();
             let d = decode(&bytes).unwrap();
-            let ops = alphabet(&d.msg, &s, d.pointer_free, tier, nodes[ni].shallow);
+            let ops = alphabet(&d.msg, &s, d.pointer_free, tier, nodes[ni].maxdepth == 1);
             for op in ops {
                 let count_it = level > 0 || ctx.shard == 0;
                 if ctx.journaling() {
@@ -384,8 +396,8 @@ fn run(ctx: &mut Ctx, rep: &mut Report, mode: Mode) {
                     if seen.insert(f) {
                         rep.states += 1;
                         if level + 1 < depth {
-                            let (init, shallow) = (nodes[ni].init, nodes[ni].shallow);
-                            nodes.push(Node { snap: n, parent: Some(ni), op: Some(op.clone()), init, shallow });
+                            let (init, maxdepth) = (nodes[ni].init, nodes[ni].maxdepth);
+                            nodes.push(Node { snap: n, parent: Some(ni), op: Some(op.clone()), init, maxdepth });
                         }
                         if rep.samples.len() < MAX_SAMPLES && rep.states % 1999 == 0 {
                             let (init, mut path) = path_of(&nodes, ni);
